@@ -18,36 +18,39 @@ type BlueprintLookupHint[E Element] struct {
 	maxLevelPosition int
 	maxLevelOffset   int
 
-	// cache the resolved entries by the solver
-	cachedEntries []E
-	cachedOffset  int
-	lock          sync.Mutex
+	// offsets of the entries in EntriesCalldata. EntriesCalldata is append-only
+	// and the offsets do not depend on a particular solver run, so (unlike the
+	// values of the entries) they can be shared by concurrent solvers.
+	entryOffsets []int
+	nextOffset   int
+	lock         sync.Mutex
 }
 
 // ensures BlueprintLookupHint implements the BlueprintStateful interface
 var _ BlueprintStateful[U32] = (*BlueprintLookupHint[U32])(nil)
 var _ BlueprintStateful[U64] = (*BlueprintLookupHint[U64])(nil)
 
+// offsets returns the offsets in EntriesCalldata of the first nbEntries entries.
+// The encoding of an entry depends on the solver, which is used to decode it.
+func (b *BlueprintLookupHint[E]) offsets(s Solver[E], nbEntries int) []int {
+	b.lock.Lock()
+	defer b.lock.Unlock()
+	for len(b.entryOffsets) < nbEntries {
+		b.entryOffsets = append(b.entryOffsets, b.nextOffset)
+		_, delta := s.Read(b.EntriesCalldata[b.nextOffset:])
+		b.nextOffset += delta
+	}
+	// we only append to the offsets; so these indices can be accessed safely
+	return b.entryOffsets[:nbEntries]
+}
+
 func (b *BlueprintLookupHint[E]) Solve(s Solver[E], inst Instruction) error {
 	nbEntries := int(inst.Calldata[1])
 
-	// check if we already cached the entries
-	b.lock.Lock()
-	if len(b.cachedEntries) < nbEntries {
-		// we need to cache more entries
-		offset, delta := b.cachedOffset, 0
-		for i := len(b.cachedEntries); i < nbEntries; i++ {
-			var zero E
-			b.cachedEntries = append(b.cachedEntries, zero)
-			b.cachedEntries[i], delta = s.Read(b.EntriesCalldata[offset:])
-			offset += delta
-		}
-		b.cachedOffset = offset
-	}
-	b.lock.Unlock()
-
-	// we only append to the entries and never resize the slice; so we can access these indices safely
-	entries := b.cachedEntries[:nbEntries]
+	// the entries are resolved with the values of the calling solver: they
+	// must not be cached in the blueprint, which is shared by all the solvers
+	// running on the same constraint system.
+	entries := b.offsets(s, nbEntries)
 
 	nbInputs := int(inst.Calldata[2])
 
@@ -68,24 +71,14 @@ func (b *BlueprintLookupHint[E]) Solve(s Solver[E], inst Instruction) error {
 			return fmt.Errorf("lookup query too large")
 		}
 		// we set the output wire to the value of the entry
-		s.SetValue(uint32(i+int(inst.WireOffset)), entries[idx])
+		entry, _ := s.Read(b.EntriesCalldata[entries[idx]:])
+		s.SetValue(uint32(i+int(inst.WireOffset)), entry)
 	}
 	return nil
 }
 
 func (b *BlueprintLookupHint[E]) Reset() {
-	// first we need to compute the capacity; that is 1 element per linear expression in the entries.
-	// this must be accurate since solver is multi threaded and we don't want to resize the slice
-	// while the solver is running.
-	capacity := 0
-	for i := 0; i < len(b.EntriesCalldata); i++ {
-		n := int(b.EntriesCalldata[i]) // length of the linear expression
-		capacity++
-		i += 2 * n // skip the linear expression
-	}
-
-	b.cachedEntries = make([]E, 0, capacity)
-	b.cachedOffset = 0
+	// the blueprint keeps no state that depends on a solver run.
 }
 
 func (b *BlueprintLookupHint[E]) CalldataSize() int {
